@@ -108,6 +108,22 @@ var (
 			return &RegistryKeyArgumentType{Identifier: id}, nil
 		},
 	}
+	ResourceOrTagArgumentPropertyCodec ArgumentPropertyCodec = &ArgumentPropertyCodecFuncs{
+		EncodeFn: func(wr io.Writer, v any, protocol proto.Protocol) error {
+			i, ok := v.(*ResourceOrTagArgumentType)
+			if !ok {
+				return fmt.Errorf("expected *ResourceOrTagArgumentType but got %T", v)
+			}
+			return util.WriteString(wr, i.Identifier)
+		},
+		DecodeFn: func(rd io.Reader, protocol proto.Protocol) (any, error) {
+			id, err := util.ReadString(rd)
+			if err != nil {
+				return nil, err
+			}
+			return &ResourceOrTagArgumentType{Identifier: id}, nil
+		},
+	}
 	ResourceOrTagKeyArgumentPropertyCodec ArgumentPropertyCodec = &ArgumentPropertyCodecFuncs{
 		EncodeFn: func(wr io.Writer, v any, protocol proto.Protocol) error {
 			i, ok := v.(*ResourceOrTagKeyArgumentType)
